@@ -469,7 +469,9 @@ class Tree:
             assert match is None
             res = self._nodes_by_data_id.get(data_id)
             if res:
-                return res[:max_results] if max_results else res
+                # Return a copy (the caller may modify the result, or remove
+                # the nodes while iterating over it)
+                return res[:max_results] if max_results else res.copy()
             return []
 
         elif match is not None:
